@@ -273,6 +273,7 @@ def replay_texts(case):
             try:
                 files = translate_inprocess(t, d)
             except BaseException as e:
+                if isinstance(e, KeyboardInterrupt): raise
                 raise Violation('translation failed (layout %s): %s: %s' % (zm, type(e).__name__, str(e)[:200]), case, 'translate-fail')
             res = M.verify(*files)
             if res[0] != 'ACCEPT':
